@@ -14,7 +14,7 @@ def build(d):
     n, edges = d["n"], [tuple(e) for e in d["edges"]]
     items = E.bool_items(s, len(edges), d["mode"])
     xv = list(s.variables)
-    G.active_edges_acyclic(s, BoolArray1D(items) if d["form"] == "array1d" else items, E.mk_graph(n, edges))
+    G.active_edges_acyclic(s, BoolArray1D(items) if d["form"] == "array1d" else items, E.mk_graph(n, edges, d.get("history")))
 
     def spec_z3(env):
         return spec.forest(n, edges, [ref.rb(x, env) for x in items])
@@ -39,6 +39,8 @@ def instances(tier, rng):
         gl.append(("rndmulti%d" % k, n, graphs.random_multigraph(rng, n, rng.randint(2, 6 if tier == "quick" else 9))))
     for nm, n, es in gl:
         out.append(dict(name="%s/vars" % nm, n=n, edges=es, mode="vars", form="list"))
+        if len(es) >= 2:
+            out.append(dict(name="%s/vars/hist" % nm, n=n, edges=es, mode="vars", form="list", history=len(es) // 2))
         if len(es) <= 6:
             out.append(dict(name="%s/and" % nm, n=n, edges=es, mode="and", form="array1d"))
             out.append(dict(name="%s/mixed" % nm, n=n, edges=es, mode="mixed", form="list"))
